@@ -498,16 +498,16 @@ func Supervise(id, tier string, seed int64, jobs int, onlyIdx int, onlyVariant s
 			observed[k] = v
 		}
 		cov := map[string]interface{}{
-			"evaluations":         merged.Evals,
-			"distinct_nontrivial": len(merged.Distinct),
-			"rule":                chk.Rule,
-			"samples":             merged.Samples,
-			"observed":            observed,
-			"cases":               n,
-			"variants":            variants,
-			"worker_crashes":      merged.Crashes,
+			"evaluations":             merged.Evals,
+			"distinct_nontrivial":     len(merged.Distinct),
+			"rule":                    chk.Rule,
+			"samples":                 merged.Samples,
+			"observed":                observed,
+			"cases":                   n,
+			"variants":                variants,
+			"worker_crashes":          merged.Crashes,
 			"known_findings_observed": knownObserved,
-			"exhaustive":          exh,
+			"exhaustive":              exh,
 		}
 		if len(merged.Inconclusive) > 0 {
 			cov["inconclusive"] = merged.Inconclusive
